@@ -54,7 +54,7 @@ Qed.
 Lemma dispatch_pure recur base o fo cs rc :
   pure_elem base = true -> pure_res fo = true ->
   dispatch recur base o fo cs rc = combine base o fo cs rc.
-Proof. intros Hb Hf. break_pure; reflexivity. Qed.
+Proof. intros Hb Hf. break_pure; destruct o; reflexivity. Qed.
 
 Lemma fold_pure rho : forall fuel operant base o r z,
   pure_elem base = true -> pure_eos operant = true ->
@@ -297,7 +297,7 @@ Proof.
       cbn [pure_eos] in Hp. apply andb_true_iff in Hp as [Hb Ho].
       pose proof (fold_range rho fuel b o operant fe r' z Hb Ho Ef Er Hs) as Hin.
       inversion Epv; subst pv. apply mark_ext_in.
-      destruct o; try exact Hin. destruct (is_size_elem b || _); [apply set_size_in|]; exact Hin. }
+      destruct (set_has_size b operant); [apply set_size_in|]; exact Hin. }
   inversion Hr; subst rg.
   destruct (cext c && _); [|exact Hpv]. unfold in_range in *. cbn. exact Hpv.
 Qed.
@@ -454,7 +454,7 @@ Proof.
       assert (Ht : trailing_marker operant = false)
         by (apply no_marker_trailing; cbn [no_elem_marker] in Hn; apply andb_true_iff in Hn as [_ Hn]; exact Hn).
       rewrite Ht, mark_ext_false.
-      destruct o; try exact Hx. destruct (is_size_elem b || _); [rewrite set_size_ext|]; exact Hx. }
+      destruct (set_has_size b operant); [rewrite set_size_ext|]; exact Hx. }
   inversion Hr; subst rg. unfold bounded.
   destruct (cext c) eqn:Ec; cbn [andb].
   - destruct (rmin pv) eqn:E1, (rmax pv) eqn:E2; cbn; rewrite ?E1, ?E2; auto.
@@ -489,10 +489,7 @@ Proof.
   destruct (fold fuel b o r None true) as [fe| | |]; cbn [bind] in H; try discriminate H.
   destruct (range_of_elem fuel fe) as [v| | |]; cbn [bind] in H; try discriminate H.
   rewrite Ht in H. inversion H as [Hrg]; clear H.
-  set (w := match o with
-            | Inter => if is_size_elem b || match r with El (Size _) => true | _ => false end then set_size v else v
-            | _ => v
-            end) in *.
+  set (w := if set_has_size b r then set_size v else v) in *.
   destruct (cx && match rmin (mark_ext true w), rmax (mark_ext true w) with None, None => false | _, _ => true end) eqn:E.
   - reflexivity.
   - apply mark_ext_true_flag. subst rg. unfold bounded in *. destruct (mark_ext_bounds true w) as [E1 E2]. rewrite E1, E2 in Hb. exact Hb.
